@@ -7,7 +7,9 @@
    One client, sessions h \in 1..H, components c \in 1..C, one feature per component, so the
    supervector index is c.  A configuration is a record
        [jfa, m, s, U, V, D  : per component  (UBM mean, UBM variance, subspace entries),
-        N, F                : per session, per component (zeroth / first order statistics)]
+        N, F                : per session, per component (zeroth / first order statistics),
+        enroll              : BOOLEAN, EnrollIter is taken on this configuration (its three chained
+                              updates stay within 32 bits only on part of the domain)]
    and the model is   mean_hc = m_c + V_c y + U_c x_h + D_c z_c,   y, x_h, z_c ~ N(0,1),
    observations of component c have variance s_c.  ISV has no speaker factor (jfa = FALSE,
    V = 0, y stays 0).
@@ -122,7 +124,7 @@ UpdZ == /\ last = "init"
         /\ last' = "UpdZ" /\ UNCHANGED <<cfg, y, x>>
 AtZero == IsZero(y) /\ (\A h \in Hs(cfg) : IsZero(x[h])) /\ (\A c \in Cs(cfg) : IsZero(z[c]))
 EnrollIter ==
-    /\ last = "init" /\ AtZero
+    /\ last = "init" /\ cfg.enroll /\ AtZero
     /\ LET y1 == IF cfg.jfa THEN NewY(cfg, x, z) ELSE Zero
            x1 == NewX(cfg, y1, z)
            z1 == NewZ(cfg, y1, x1)
@@ -164,7 +166,7 @@ JNonDecreasingEnroll ==
 \* the latent updates and J do not change
 Aff(k, a, b) ==
     LET nc == Len(k.m)
-    IN [jfa |-> k.jfa,
+    IN [jfa |-> k.jfa, enroll |-> k.enroll,
         m |-> Tup(nc, LAMBDA c : AddL(Mul(a, k.m[c]), b)),
         s |-> Tup(nc, LAMBDA c : Mul(Sq(a), k.s[c])),
         U |-> Tup(nc, LAMBDA c : Mul(a, k.U[c])),
@@ -172,13 +174,11 @@ Aff(k, a, b) ==
         D |-> Tup(nc, LAMBDA c : Mul(a, k.D[c])),
         N |-> k.N,
         F |-> Tup(Len(k.N), LAMBDA h : Tup(nc, LAMBDA c : AddL(Mul(a, k.F[h][c]), Mul(b, k.N[h][c]))))]
-AffineInvariant ==
-    last = "init" =>
-        \A k2 \in {Aff(cfg, t[1], t[2]) : t \in Affs} :      \* (a set: its elements are evaluated once)
-            /\ NewY(k2, x, z) = NewY(cfg, x, z)
-            /\ NewX(k2, y, z) = NewX(cfg, y, z)
-            /\ NewZ(k2, y, x) = NewZ(cfg, y, x)
-            /\ J(k2, y, x, z) = J(cfg, y, x, z)
+AffineInvariant ==      \* an action property: evaluated per transition (by every worker), not per initial state
+    [][\A k2 \in {Aff(cfg, t[1], t[2]) : t \in Affs} :      \* (a set: its elements are evaluated once)
+          /\ last' = "UpdY" => NewY(k2, x, z) = y'
+          /\ last' = "UpdX" => NewX(k2, y, z) = x'
+          /\ last' = "UpdZ" => NewZ(k2, y, x) = z' /\ J(k2, y, x, z) = J(cfg, y, x, z)]_vars
 
 \* ------------------------------------------------------------------ export (one record per edge)
 Export ==
